@@ -286,6 +286,24 @@ def check(spec, ctx):
         if ok2 != results[name] or (ok2 and second != objs[name]):
             ctx.fail(f"validating the same {name} object twice gives different results ({results[name]} then {ok2})", spec, [results[name], ok2], None, kind="not_repeatable")
 
+    # 2b. the same data carrying members that are no part of the rules (GeoJSON's optional "bbox", an "id" or "properties" written by
+    # another tool): acceptance depends on type and coordinates only
+    extra = {"bbox": [0.0, 0.0, 1.0, 1.0], "id": "a1", "properties": {"note": "x"}}
+    for name, build in (
+        ("dict+extra", lambda: data.geometry_validate({**copy.deepcopy(d), **copy.deepcopy(extra)}, mode="dict")),
+        ("json+extra", lambda: data.geometry_validate(json.dumps({**d, **extra}), mode="json")),
+        ("attributes+extra", lambda: data.geometry_validate(types.SimpleNamespace(type=kind, coordinates=copy.deepcopy(c), **copy.deepcopy(extra)), mode="attributes")),
+        ("ctor+extra", lambda: _ctor(data, kind)(coordinates=copy.deepcopy(c), **copy.deepcopy(extra))),
+    ):
+        try:
+            objs[name] = build()
+            results[name] = True
+        except ValueError:
+            results[name] = False
+        except Exception as e:
+            ctx.fail(f"{name} raised {type(e).__name__}: {e} (must be a validation error or succeed)", spec, repr(e), "ValueError", kind="wrong_exception")
+            results[name] = False
+
     # 5. through a model field typed with the Geometry union (a sound event built from plain data)
     rec = _recording(data)
     for name, build in (
